@@ -72,7 +72,9 @@ func runWMPT(args []string) (map[string]any, error) {
 	for i := 0; i < *c.n; i++ {
 		tid++
 		mode := modes[i%len(modes)]
-		if i%3 == 2 {
+		if i%4 == 3 {
+			exec.RunWMPT(w, in, st, tid, exec.GenWMPTReturn(r))
+		} else if i%3 == 2 {
 			rm := mode
 			if rm != "plain" && rm != "shared" {
 				rm = "again"
